@@ -17,8 +17,15 @@ impl StringBlock {
     pub fn parse<R: Read + Seek>(reader: &mut R, offset: u64, size: u32) -> Result<Self> {
         reader.seek(SeekFrom::Start(offset))?;
 
-        let mut data = vec![0u8; size as usize];
-        reader.read_exact(&mut data)?;
+        // The declared size is untrusted: read up to it instead of allocating it up front
+        let mut data = Vec::new();
+        reader
+            .by_ref()
+            .take(u64::from(size))
+            .read_to_end(&mut data)?;
+        if data.len() != size as usize {
+            return Err(std::io::Error::from(std::io::ErrorKind::UnexpectedEof).into());
+        }
 
         Ok(Self { data })
     }
